@@ -44,7 +44,7 @@ RULE = ("the real RWLock runs on real threads whose mutex class is replaced (ins
         "least one context switch at a yield point")
 ASSUMPTIONS = ["threading.Lock semantics modelled by the virtual lock (mutual exclusion, release by any thread, no reentrancy)",
                "schedules beyond the delay bound / the sampled random ones are not covered", "CPython threading primitives used by the scheduler itself"]
-REQUIRED = {"quick": ["handoff_probe", "independence_probe", "schedule.two_locks", "schedule.systematic", "schedule.random", "schedule.pct", "share_probe", "quiescence", "free_running",
+REQUIRED = {"quick": ["handoff_probe", "long_run", "schedule.mixed_roles", "independence_probe", "schedule.two_locks", "schedule.systematic", "schedule.random", "schedule.pct", "share_probe", "quiescence", "free_running",
                       "occupancy.RR", "occupancy.W", "occupancy.R", "blocked_events", "max_readers_ge2"]}
 WATCHDOG_S = {"quick": 600, "thorough": 3000}
 
@@ -72,6 +72,9 @@ def shards(tier, seed):
     out.append(("child_free", dict(kind="free", rounds=100 if q else 1000, _pyopt="opt")))
     out.append(("share", dict(kind="share", count=100 if q else 2000)))
     out.append(("handoff", dict(kind="handoff", count=60 if q else 1500)))
+    for i in range(2 if q else 6):
+        out.append(("mixed_roles_%d" % i, dict(kind="mixed_roles", count=60 if q else 600, limit=150 if q else 3000)))
+    out.append(("long_run", dict(kind="long_run", rounds=(1, 2, 255, 256, 257, 258, 300, 1000) if q else (1, 2, 3, 127, 128, 255, 256, 257, 258, 300, 1000, 32768, 65537, 70000))))
     out.append(("free", dict(kind="free", rounds=300 if q else 3000)))
     return out
 
@@ -129,7 +132,7 @@ class _Multi(object):
         return max(m.max_readers for m in self.mons)
 
 
-def one_run(r, w, rounds, decider, hooks=None, trace=False, second_lock=None):
+def one_run(r, w, rounds, decider, hooks=None, trace=False, second_lock=None, mixed=None):
     """One schedule of r readers and w writers.  Returns (sched, mon, lock).
     second_lock = (r2, w2): that many readers / writers work on a SECOND, unrelated RWLock object in the same schedule."""
     _install_shim()
@@ -162,6 +165,20 @@ def one_run(r, w, rounds, decider, hooks=None, trace=False, second_lock=None):
                 mon.leave("W", name)
                 lock.writer_release()
         return f
+    if mixed:
+        # threads that change role between rounds ("WR" = one write round, then one read round, ...)
+        def both(name, roles):
+            def f():
+                for kind in roles:
+                    (lock.reader_acquire if kind == "R" else lock.writer_acquire)()
+                    mon.enter(kind, name)
+                    s.yield_point(("cs", name))
+                    mon.leave(kind, name)
+                    (lock.reader_release if kind == "R" else lock.writer_release)()
+            return f
+        for i, roles in enumerate(mixed):
+            s.spawn(both("M%d" % i, roles), "M%d" % i)
+        r = w = 0
     # interleave creation order so that the base schedule differs between configs
     for i in range(max(r, w)):
         if i < r:
@@ -209,7 +226,7 @@ def quiescent(lock):
         sw = {k: getattr(swo, k, None) for k in ("_LightSwitch__counter", "_LightSwitch__mutex")}
         if sw["_LightSwitch__mutex"] is None:
             continue
-        if sw["_LightSwitch__counter"] != 0:
+        if isinstance(sw["_LightSwitch__counter"], int) and sw["_LightSwitch__counter"] != 0:      # judged only where the pinned tree's counter exists
             probs.append("%s counter = %r" % (nm.split("__")[1], sw["_LightSwitch__counter"]))
         if sw["_LightSwitch__mutex"].locked():
             probs.append("%s mutex held" % nm.split("__")[1])
@@ -227,6 +244,39 @@ def quiescent(lock):
             probs.append("fresh round would block: %s" % e)
         except RuntimeError as e:
             probs.append("fresh round: %s" % e)
+    if not probs:
+        # black-box exclusion probes, each on a deep copy of the lock at rest (a refused acquire leaves the protocol half-way):
+        # with one holder inside, the conflicting acquire must have to wait; a second reader must not
+        import copy
+        for first, second, must_wait in (("reader", "writer", True), ("writer", "reader", True), ("writer", "writer", True), ("reader", "reader", False)):
+            try:
+                L2 = copy.deepcopy(lock)
+                # the first holder is ANOTHER thread than the one that then tries (an implementation may let a thread re-enter its own hold)
+                box = {}
+
+                def _first(L2=L2, first=first, box=box):
+                    try:
+                        getattr(L2, first + "_acquire")()
+                    except BaseException as e:  # noqa
+                        box["exc"] = e
+                th = threading.Thread(target=_first)
+                th.start()
+                th.join(10)
+                if "exc" in box:
+                    raise box["exc"]
+            except Exception as e:
+                probs.append("probe copy: %s_acquire on the lock at rest: %s: %s" % (first, type(e).__name__, e))
+                continue
+            try:
+                getattr(L2, second + "_acquire")()
+                waited = False
+            except S.Deadlock:
+                waited = True
+            except Exception as e:
+                probs.append("probe copy: %s_acquire while a %s is inside raised %s: %s" % (second, first, type(e).__name__, e))
+                continue
+            if waited != must_wait:
+                probs.append("at rest again, but a %s %s while a %s is inside" % (second, "would have to wait" if waited else "gets in", first))
     return probs
 
 
@@ -399,6 +449,52 @@ def run(ctx, name, kind, **kw):
                 else:
                     probs = quiescent(lock)
                     ctx.check(not probs, "not_quiescent_after_release", "hand-off probe: %s" % probs, dict(decisions=s.decisions[:400]))
+        elif kind == "mixed_roles":
+            # threads that write and then read (or the other way round) on the same lock, next to single-role threads
+            plans = [("WR", "W"), ("WR", "W", "R"), ("RW", "W"), ("WR", "WR"), ("WRW", "R"), ("RWR", "W", "W"), ("WR", "R", "W"), ("WW", "WR"), ("RR", "WR", "W")]
+            for i in range(kw["count"]):
+                plan = plans[i % len(plans)]
+
+                def run_once(delays):
+                    dec = S.delay_decider(delays)
+                    s_, mon, lock, ok = one_run(0, 0, 1, dec, None, mixed=plan)
+                    judge(ctx, "schedule.mixed_roles", (len(plan), 0), s_, mon, lock, ok, seen, dict(roles=list(plan), delays=list(delays)))
+                    return dec.state["i"]
+                if i < len(plans):
+                    for _d in S.enumerate_delays(run_once, 2, kw["limit"], rng):
+                        if ctx.expired():
+                            break
+                else:
+                    dec = S.random_decider(rng, rng.choice((0.1, 0.3, 0.6))) if i % 3 else S.pct_decider(rng, len(plan), 3, 120)
+                    s_, mon, lock, ok = one_run(0, 0, 1, dec, None, mixed=plan)
+                    judge(ctx, "schedule.mixed_roles", (len(plan), 0), s_, mon, lock, ok, seen, dict(roles=list(plan)))
+        elif kind == "long_run":
+            # many rounds on one lock object, no concurrency at all: after N read rounds a writer gets in, after N write rounds a reader
+            # does, and exclusion still holds (counters that only behave for small values)
+            for N in kw["rounds"]:
+                for first, second in (("reader", "writer"), ("writer", "reader"), ("reader", "reader"), ("writer", "writer")):
+                    _install_shim()
+                    S.VLock.counter = 0
+                    S.VLock.sched = None
+                    lock = RW.RWLock()
+                    ctx.case("long_run", key="%s*%d|%s" % (first, N, second), nontrivial=True)
+                    try:
+                        for _i in range(N):
+                            getattr(lock, first + "_acquire")()
+                            getattr(lock, first + "_release")()
+                        if first == "reader":      # and N holds at the same time
+                            for _i in range(N):
+                                lock.reader_acquire()
+                            for _i in range(N):
+                                lock.reader_release()
+                        getattr(lock, second + "_acquire")()
+                        getattr(lock, second + "_release")()
+                        probs = quiescent(lock)
+                    except S.Deadlock as e:
+                        probs = ["after %d %s rounds a %s cannot get in: %s" % (N, first, second, e)]
+                    except Exception as e:
+                        probs = ["after %d %s rounds: %s: %s" % (N, first, type(e).__name__, e)]
+                    ctx.check(not probs, "lock_unusable_after_many_rounds", "%d %s rounds then a %s: %s" % (N, first, second, probs), dict(N=N, first=first, second=second))
         elif kind == "share":
             # no writer exists; reader A parks inside; every other reader must get in while A is inside
             for i in range(kw["count"]):
